@@ -446,6 +446,42 @@ Definition observed_g nnv (t : ity) (s : str) : option Z :=
 Definition observed := observed_g new_numeric_value.
 Definition observed_orig := observed_g new_numeric_value_orig.
 
+(* ------------------------------------------------------------------ PORT: parser.go parsePrimary (NUMBER_TOKEN), as repaired by
+   fixes/C10-exponent-float-kind.patch: kind = FLOAT iff tokens.IsFloat(tok) = numeric.IsFloat = floatRegex || scientificRegex
+     floatRegex       = sign? digits '.' digits            (digits = decimal digits with single '_' between them)
+     scientificRegex  = sign? digits ('.' digits)? [eE] [+-]? digits
+   (what follows a digit group is never a digit or '_', so the greedy take_groups is exact) *)
+Definition exp_full (r : str) : bool :=      (* [eE][+-]?D(_?D)*$ *)
+  match r with
+  | e :: t => (Ascii.eqb e "e" || Ascii.eqb e "E") &&
+              let t' := match t with
+                        | sg :: u => if Ascii.eqb sg c_plus || Ascii.eqb sg c_minus then u else t
+                        | [] => t
+                        end in
+              match take_groups is_dec t' with Some (_, []) => true | _ => false end
+  | [] => false
+  end.
+Definition is_float_token (s : str) : bool :=
+  let (_, r) := split_sign s in
+  match take_groups is_dec r with
+  | None => false
+  | Some (_, rest) =>
+      match rest with
+      | [] => false
+      | d :: rest1 =>
+          if Ascii.eqb d c_dot
+          then match take_groups is_dec rest1 with
+               | Some (_, rest2) => match rest2 with [] => true | _ => exp_full rest2 end
+               | None => false
+               end
+          else exp_full rest
+      end
+  end.
+Inductive litkind := KInt | KFloat.
+Definition literal_kind (tok : str) : litkind := if is_float_token tok then KFloat else KInt.
+(* before the repair: FLOAT iff the token contains a '.' *)
+Definition literal_kind_orig (tok : str) : litkind := if existsb (fun c => Ascii.eqb c c_dot) tok then KFloat else KInt.
+
 (* ------------------------------------------------------------------ correspondence cases *)
 (* (id, type, literal, accepted by the implementation, printed value if accepted and run, oracle value computed by the harness) *)
 Record case := Case { c_id : Z; c_ty : ity; c_lit : str; c_acc : bool; c_out : option Z; c_val : Z }.
